@@ -3,7 +3,10 @@ import os, json, struct, math
 import vf
 
 PROP = "C12"
-THEOREMS = ["cbor_roundtrip", "cbor_canonical", "cbor_decode_injective"]
+THEOREMS = ["cbor_roundtrip", "cbor_canonical", "cbor_decode_injective", "cbor_noncanonical_rejected", "cbor_decode_normal",
+            "cbor_enc_wf", "cbor_reject_trailing", "cbor_reject_tag", "cbor_reject_indefinite", "cbor_reject_nonminimal_head",
+            "cbor_reject_f16_nan_payload", "cbor_reject_integral_float", "cbor_reject_wide_float64", "cbor_reject_wide_float32",
+            "narrow16_exact", "narrow32_exact", "cbor_decode_never_out_of_fuel"]
 PRE = ("From Coq Require Import List NArith ZArith.\nFrom Echo Require Import Base.Bytes Model.Cbor.\n"
        "Import ListNotations.\nOpen Scope N_scope.\n")
 
